@@ -62,6 +62,17 @@ def verdict(ctx, mod, res):
     for f in oracle_known:
         if f['finding'] not in seen:
             seen.append(f['finding'])
+    # replay the witness of every listed finding: it is reported whether or not the generators hit its class
+    for fid, f in listed.items():
+        if fid in seen or not hasattr(mod, 'witness_fails'):
+            continue
+        try:
+            if mod.witness_fails(ctx, f):
+                seen.append(fid)
+            else:
+                print(f"note: listed finding {fid} no longer reproduces on its witness")
+        except Exception as ex:  # noqa
+            print(f"note: witness of {fid} could not be replayed: {type(ex).__name__}: {ex}")
     for fid in seen:
         print(f"KNOWN-FINDING: property={pid} {fid}: {listed[fid].get('what', '')}")
     rc = 0
